@@ -1,0 +1,54 @@
+//! Verification hook (only with `--cfg ckb_verif`): counts the atomic writes of the process (optimistic
+//! transaction commits and write-batch writes) and aborts the process at a chosen one.
+//!
+//! `VERIF_CRASH_AT=<n>:before|after` — `std::process::abort()` at the n-th write (1-based), before the write
+//! reaches RocksDB or right after it returned. `VERIF_CRASH_LOG=<path>` — append one line per write
+//! (`<n> <kind>`), flushed before the write, so that a parent process can see how far a killed child got.
+use std::io::Write;
+use std::sync::atomic::{AtomicU64, Ordering};
+use std::sync::OnceLock;
+
+static WRITES: AtomicU64 = AtomicU64::new(0);
+
+/// Number of atomic writes started so far in this process.
+pub fn writes() -> u64 {
+    WRITES.load(Ordering::SeqCst)
+}
+
+fn crash_at() -> Option<(u64, bool)> {
+    static AT: OnceLock<Option<(u64, bool)>> = OnceLock::new();
+    *AT.get_or_init(|| {
+        let v = std::env::var("VERIF_CRASH_AT").ok()?;
+        let (n, phase) = v.split_once(':')?;
+        Some((n.parse().ok()?, phase == "before"))
+    })
+}
+
+/// Created right before an atomic write, dropped right after it.
+pub struct WriteGuard {
+    n: u64,
+}
+
+impl WriteGuard {
+    /// Counts the write; aborts when it is the chosen one and the phase is `before`.
+    pub fn begin(kind: &str) -> WriteGuard {
+        let n = WRITES.fetch_add(1, Ordering::SeqCst) + 1;
+        if let Ok(path) = std::env::var("VERIF_CRASH_LOG") {
+            if let Ok(mut f) = std::fs::OpenOptions::new().create(true).append(true).open(path) {
+                let _ = writeln!(f, "{n} {kind}");
+            }
+        }
+        if crash_at() == Some((n, true)) {
+            std::process::abort();
+        }
+        WriteGuard { n }
+    }
+}
+
+impl Drop for WriteGuard {
+    fn drop(&mut self) {
+        if crash_at() == Some((self.n, false)) {
+            std::process::abort();
+        }
+    }
+}
